@@ -111,7 +111,7 @@ Proof. reflexivity. Qed.
 Theorem header_conforms alg ver : conforms_v spec_header (header_ipld alg ver) = true.
 Proof. reflexivity. Qed.
 
-Theorem payload_conforms ds cs t : conforms_v spec_payload (payload_ipld ds cs t true) = true.
+Theorem payload_conforms t : conforms_v spec_payload (payload_ipld t true) = true.
 Proof.
   destruct t as [ver iss aud s att prf exp fct nnc nbf].
   destruct prf as [prf|], exp as [exp|], fct as [fct|], nnc as [nnc|], nbf as [nbf|]; reflexivity.
